@@ -4,7 +4,7 @@ from . import dist_common as DC
 FUNCTIONS = ["distance3d.distance." + f for f in DC.FUNCS]
 OUTSIDE = DC.OUTSIDE_FUNCS
 STUBS = []
-BOUNDS = {"quick": "2 base primitive pairs x 7 one-parameter sweeps (translation along a line / rotation about an axis, t in [-3,3] resp. all angles but pi) per function; <=300 branch decisions per path",
+BOUNDS = {"quick": "2 base primitive pairs x 11 one-parameter sweeps (translation along a line / rotation about an axis, t in [-3,3] resp. all angles but pi) per function; <=300 branch decisions per path",
           "thorough": "all corpus pairs x 15 sweeps incl. 2-parameter translations"}
 WALL_BUDGET = {"quick": 420, "thorough": 3000}
 EXPECTED_EXCEPTIONS = ()
